@@ -409,6 +409,7 @@ func (k *K) genesisFieldRule(id string) {
 		return
 	}
 	exported := map[string]string{}
+	exportedT := map[string]*Term{}
 	for _, rt := range exp.Returns() {
 		t := exp.T.Of(RetVal(rt.Instr, 0))
 		if t.Op == "lit" {
@@ -417,24 +418,128 @@ func (k *K) genesisFieldRule(id string) {
 			}
 		}
 	}
+	// the same literal without inlining the getters, so that each field names the getter it is
+	// exported from; a constructor (NewGenesisState(...)) is opened with its arguments substituted
+	fnByName := map[string]*ssa.Function{}
+	for _, fn := range k.w.Funcs {
+		fnByName[funcName(fn)] = fn
+	}
+	raw := &Termer{w: k.w, fn: exp.Fn, visited: map[ssa.Value]bool{}, cache: map[ssa.Value]*Term{}, Inline: false}
+	for _, rt := range exp.Returns() {
+		t := raw.Of(RetVal(rt.Instr, 0))
+		if t.Op == "call" {
+			if ctor := fnByName[t.Name]; ctor != nil && len(ctor.Blocks) == 1 && len(ctor.Params) == len(t.Args) {
+				env := map[*ssa.Parameter]*Term{}
+				for i, p := range ctor.Params {
+					env[p] = t.Args[i]
+				}
+				sub := k.w.InfoEnv(ctor, env)
+				for _, crt := range sub.Returns() {
+					t = sub.T.Of(RetVal(crt.Instr, 0))
+				}
+			}
+		}
+		if t.Op == "lit" {
+			for _, kv := range t.Args {
+				exportedT[kv.Name] = kv.Args[0]
+				if _, ok := exported[kv.Name]; !ok {
+					exported[kv.Name] = kv.Args[0].String()
+				}
+			}
+		}
+	}
 	imported := map[string]bool{}
 	// which setter is fed from which field
 	fieldSetter := map[string]string{}
+	fieldSetterFn := map[string]*ssa.Function{}
+	// role of a parameter / entry field in a channel-keyed record: S(ource), D(estination), Q (sequence)
+	role := func(name string) string {
+		n := strings.ToLower(name)
+		switch {
+		case strings.Contains(n, "source") || strings.HasPrefix(n, "src"):
+			return "source chain"
+		case strings.Contains(n, "dest") || strings.HasPrefix(n, "dst"):
+			return "destination chain"
+		case strings.Contains(n, "seq"):
+			return "sequence"
+		}
+		return ""
+	}
 	for _, b := range imp.Fn.Blocks {
 		for _, in := range b.Instrs {
 			c, ok := in.(*ssa.Call)
 			if !ok {
 				continue
 			}
+			callee := c.Call.StaticCallee()
+			fed := ""
 			for _, a := range c.Call.Args {
 				imp.T.Of(a).Walk(func(x *Term) {
 					if x.Op == "field" && x.Args[0].String() == P(2).String() {
 						imported[x.Name] = true
 						fieldSetter[x.Name] = calleeShort(&c.Call)
+						fieldSetterFn[x.Name] = callee
+						fed = x.Name
 					}
 				})
 			}
+			if fed == "" || callee == nil {
+				continue
+			}
+			// the record's components go to the setter parameters of the same role: the key written
+			// on import is the key the record was exported from, not a permutation of it
+			agree, classified := true, 0
+			detail := ""
+			for i, a := range c.Call.Args {
+				t := imp.T.Of(a)
+				if t.Op != "field" || i >= len(callee.Params) {
+					continue
+				}
+				pr, fr := role(callee.Params[i].Name()), role(t.Name)
+				if pr == "" || fr == "" {
+					continue
+				}
+				classified++
+				if pr != fr {
+					agree = false
+					detail += fmt.Sprintf("parameter %s (%s) of %s receives the record's %s (%s); ", callee.Params[i].Name(), pr, callee.Name(), t.Name, fr)
+				}
+			}
+			if classified > 0 {
+				k.r.Check(agree, id+"/"+fed+".args", "BIND", fnShort(imp), imp.InstrPos(c), "record components of "+fed+" are restored under the parameter of the same role", detail+"the restored key is not the key the record was exported from")
+			}
 		}
+	}
+	// the getter a field is exported from reads the key class the importing setter writes
+	classes := func(fn *ssa.Function, ops ...string) map[string]bool {
+		out := map[string]bool{}
+		for e := range k.cg.Effects(fn) {
+			for _, op := range ops {
+				if strings.HasPrefix(e, op+":") {
+					out[strings.TrimSuffix(strings.Trim(strings.TrimPrefix(e, op+":"), `"`), "/")] = true
+				}
+			}
+		}
+		return out
+	}
+	for f, t := range exportedT {
+		sfn := fieldSetterFn[f]
+		if sfn == nil || t.Op != "call" {
+			continue
+		}
+		gfn := fnByName[t.Name]
+		if gfn == nil {
+			continue
+		}
+		rd, wr := classes(gfn, "Iterate", "Get"), classes(sfn, "Set")
+		okc := len(wr) > 0
+		for c := range wr {
+			if !rd[c] {
+				okc = false
+			}
+		}
+		k.r.Check(okc, id+"/"+f+".class", "KEY-SHAPE", fnShort(exp), k.w.Pos(exp.Fn.Pos()), fmt.Sprintf("exported from key class %v, restored into %v", keysOf(rd), keysOf(wr)),
+			fmt.Sprintf("GenesisState.%s is exported by %s, which reads key class %v, but InitGenesis restores it with %s, which writes %v: the record kind changes across export/import", f, gfn.Name(), keysOf(rd), sfn.Name(), keysOf(wr)))
 	}
 	for i := 0; i < st.NumFields(); i++ {
 		f := st.Field(i).Name()
